@@ -182,6 +182,7 @@ Fixpoint ups_loop (ps : list (Z * pstate)) (pl : list (Z * pil)) (upd : list Z)
                            | inr (n, _) => inr n
                            end
              end) with
+      | inl ValueError => ups_loop r pl1 upd       (* except ValueError: warning, continue *)
       | inl e => (pl1, upd, Some (conv e))
       | inr n =>
           if pstate_opt_eqb (p_state p) (Some n) then ups_loop r pl1 upd
